@@ -51,6 +51,11 @@ class Axis:
         self.role = role  # for CA: 'items' or 'cats'
         if var.kind == "cat":
             self.elems = [("cat", k) for k in var.valid]
+            # bottom-anchored sum subtotals defined on the variable: union of the addend categories
+            for ins in (var.insertions or []):
+                ids = ins.get("args") or ins.get("kwargs", {}).get("positive", [])
+                ks = [k for k in var.valid if var.cats[k][0] in ids]
+                self.elems.append(("sub", ks))
         elif var.kind == "mr":
             self.elems = [("item", k) for k in range(var.n)]
         elif var.kind == "ca":
@@ -68,6 +73,8 @@ class Axis:
         a = p[self.vi]
         if kind == "cat":
             return a == k
+        if kind == "sub":
+            return a in k
         if kind == "item":
             return a[k] == SEL
         if kind == "caitem":
@@ -82,7 +89,7 @@ class Axis:
         kind, k = self.elems[e]
         a = p[self.vi]
         v = self.var
-        if kind == "cat":
+        if kind in ("cat", "sub"):
             return not v.cats[a][1]
         if kind == "item":
             return a[k] != MIS
@@ -91,6 +98,12 @@ class Axis:
         if kind == "cacat":
             return not v.cats[a[other]][1]
         raise AssertionError(kind)
+
+
+def subtotal(name, ids, anchor="bottom", **kw):
+    d = {"anchor": anchor, "args": list(ids), "function": "subtotal", "name": name}
+    d.update(kw)
+    return d
 
 
 class World:
